@@ -5,7 +5,7 @@ class C37(Prop):
     pid = "C37"
     check_mod = "C37"
     drivers = [dict(pkg="internal/logger", test="TestVerifC37")]
-    n_quick = 700          # messages; each is logged to two destinations (two cases)
+    n_quick = 700          # messages; each is logged to two destinations (two cases); + 4 burst and ~46 syslog cases
     n_thorough = 15000
     shard = 150
     ready = True
@@ -15,23 +15,43 @@ class C37(Prop):
              "reads it back as the object {timestamp, level, message} with the message's ill-formed UTF-8 bytes replaced by "
              "U+FFFD. The model is tied to the code by logging generated messages (all 256 single bytes, pairs of the "
              "interesting classes, UTF-8 boundary sequences, random text) through the real Logger into both destinations and "
-             "comparing byte for byte inside Coq; every real line is also parsed by Go's encoding/json and time.Parse.",
+             "comparing byte for byte inside Coq; every real line is also parsed by Go's encoding/json and time.Parse. "
+             "The destination model (Model/C37_LogDest.v) covers EVERY configuration destination x Structured x "
+             "destinationStdout.useColor (stdout is a terminal) x gookit/color on/off: theorems say the structured line is the "
+             "same JSON line in all of them, that a coloured level tag would make every record of a colour terminal invalid "
+             "JSON (and be invisible everywhere else), and that any stream of records splits at the newlines into exactly its "
+             "records (all histories). The driver runs all 16 configurations on every quick run (useColor=true obtained from "
+             "newDestionationStdout itself with os.Stdout swapped for a pty), bursts of concurrent records from several "
+             "goroutines through one Logger, and the syslog destination on a log/syslog Writer dialled to its own socket.",
         note="Assumed: time.Format(RFC3339Nano) yields printable ASCII without quote/backslash (checked on every case) and "
              "round-trips through time.Parse (checked on every case, years 1..9999); fmt.Sprintf output is the 'formatted "
-             "message'. The model of the pinned strconv.Quote code treats IsPrint as a parameter.",
+             "message'. The model of the pinned strconv.Quote code treats IsPrint as a parameter. The plain-text branch "
+             "(writePlainTime, coloured writeLevel; gookit/color RenderString with its colour codes) is modelled and compared "
+             "byte for byte but the property does not constrain it. color.Enable && color.SupportColor() and t.Date()/t.Clock() "
+             "are inputs shipped by the driver. newDestinationSyslog (syslog.New -> /dev/log) is not run: the sandbox has no "
+             "system logger.",
         technique="Coq proof (induction over the UTF-8 rune decomposition; finite sweep of the 128 ASCII escapes) + "
                   "correspondence via vm_compute")
     rule = ("messages: every single byte 0..255 in context (exhaustive), refutation witnesses and UTF-8 boundary corpus, pairs "
-            "of 30 interesting byte classes, random/hostile/long text; random times/zones/levels; each logged to stdout and file "
-            "destinations of the real Logger. Non-trivial = the message needs escaping or sanitising; distinct = distinct "
-            "(input, line) descriptions")
+            "of 30 interesting byte classes, random/hostile/long text; random times/zones/levels; each logged to the stdout and file "
+            "destinations of a real Logger in one of the configurations Structured x useColor (terminal, via pty) x gookit colour "
+            "state (Enable off / no colour support / 16 colours / true colour): the 256 single bytes walk through the 4 colour "
+            "combinations x 4 levels with Structured on, three quarters of the other messages are structured; class = "
+            "'<dest> <json|plain> tty=<useColor> color=<colour on> <ascii|escaping|invalid-utf8>'. Plus bursts (8 goroutines x 3 "
+            "hostile records through one structured Logger, both destinations, colour terminal and pipe; class 'burst ...'; 12 more "
+            "bursts of 8 x 12 records are judged by encoding/json in the driver and shipped only if damaged) and "
+            "~46 syslog records (all levels incl. out-of-range; class 'syslog'). Non-trivial = the message needs escaping or "
+            "sanitising, or the configuration is a colour terminal; distinct = distinct (input, line) descriptions")
     trusted_base = ["Coq 8.16.1 kernel + VM (vm_compute for cases)", "in-package Go driver zz_verif_c37_test.go",
                     "oracle: time.Format / time.Parse (timestamp text and its round trip)",
                     "oracle: fmt.Sprintf (formatted message)",
                     "independent oracle: encoding/json.Unmarshal on every real line",
-                    "models Model/C37_LogJson.v, Lib/Json.v, Lib/Utf8.v hand-written, tied by correspondence"]
+                    "oracle: color.Enable && color.SupportColor() (gookit/color global state), t.Date()/t.Clock()",
+                    "log/syslog Writer (header format '<pri>stamp tag[pid]: ') between destinationSysLog and the driver's socket",
+                    "models Model/C37_LogJson.v, Model/C37_LogDest.v, Lib/Json.v, Lib/Utf8.v hand-written, tied by correspondence"]
     assumptions = ["timestamps are in years 1..9999 (time.Now)", "fmt.Sprintf(format, args...) is the record's formatted message",
-                   "syslog destination is not structured and not covered"]
+                   "the syslog destination is never structured (upstream design): its records are checked for severity and text only",
+                   "concurrent records: Logger.Log holds the mutex (the burst cases observe it, the stream theorem assumes it)"]
 
 
 PROP = C37()
